@@ -99,6 +99,25 @@ func TestCheck(t *testing.T) {
 			nOps = 0 // empty RIB
 		}
 		for k := 0; k < nOps && len(probs) == 0; k++ {
+			if r.Intn(25) == 0 {
+				// a Flush RPC (all instances, or one) in the middle of the history - whatever the
+				// server keeps between requests about its instances must survive it
+				nis := g.S.NIs
+				req := &spb.FlushRequest{NetworkInstance: &spb.FlushRequest_All{All: &spb.Empty{}}, Election: &spb.FlushRequest_Override{Override: &spb.Empty{}}}
+				if r.Intn(2) == 0 {
+					nis = []string{g.S.NIs[r.Intn(len(g.S.NIs))]}
+					req.NetworkInstance = &spb.FlushRequest_Name{Name: nis[0]}
+				}
+				if _, err, wd := drv.Flush(srv, req); wd != nil {
+					probs = append(probs, "INCONCLUSIVE|Flush did not return within the watchdog")
+				} else if err != nil {
+					probs = append(probs, fmt.Sprintf("flush-error|Flush(%v): %v", nis, err))
+				}
+				x.M.Flush(nis)
+				x.Trace = append(x.Trace, fmt.Sprintf("FLUSH RPC %v", nis))
+				run.Count("flush_rpcs_inside_histories", 1)
+				continue
+			}
 			_, p := x.Do(g.Op())
 			probs = append(probs, p...)
 		}
@@ -144,7 +163,7 @@ func TestCheck(t *testing.T) {
 				sel.set(req)
 				resps, err, wd := get(req)
 				if wd != nil {
-					run.Inconclusive(caseID + ": Get did not return within the watchdog")
+					probs = append(probs, "INCONCLUSIVE|Get did not return within the watchdog")
 					continue
 				}
 				run.Count("get_requests", 1)
@@ -228,7 +247,7 @@ func TestCheck(t *testing.T) {
 				sel.set(req)
 				resps, err, wd := get(req)
 				if wd != nil {
-					run.Inconclusive(caseID + ": Get(unsupported AFT) did not return within the watchdog")
+					probs = append(probs, "INCONCLUSIVE|Get(unsupported AFT) did not return within the watchdog")
 					continue
 				}
 				got, _ := canon.FromGet(resps)
